@@ -180,6 +180,9 @@ class StatusMonitor:
 
     def join(self):
         """Wait for the confirmation that StatusMonitor will never execute again (unless a new call to Run is made)"""
+        if self.cancelStatus is None:
+            # VV: run() was never called, there is no monitor to wait for
+            return
         self._condition_stopped.wait()
 
     @property
